@@ -323,8 +323,8 @@ static inline void broadcast(Comm *c, IntVec *v, int root)
 static inline void Comm_barrier(Comm *c) { }
 
 /* ------------------------------------------------------------------ std::vector<WrapType> parts (only its size is used), scoped_ptr<MPIMaster> */
-typedef struct PartVec { unsigned long size; } PartVec;
-static inline unsigned long PartVec_size(PartVec *v) { return v->size; }
+typedef struct SkelPartVec { unsigned long size; } SkelPartVec;
+static inline unsigned long SkelPartVec_size(SkelPartVec *v) { return v->size; }
 struct MPIMaster;
 typedef struct MasterPtr { struct MPIMaster *p; } MasterPtr;
 static inline struct MPIMaster *MasterPtr_arrow(MasterPtr *d)
